@@ -21,6 +21,7 @@ import (
 	"fmt"
 	"io"
 	"strings"
+	"unicode/utf8"
 )
 
 type token int
@@ -378,6 +379,15 @@ func (t *tokenizer) ReadValue(tok token) (string, error) {
 
 	if err != nil {
 		return "", err
+	}
+
+	switch tok {
+	case tokenString, tokenLongString, tokenSymbolQuoted:
+		// Ion text is UTF-8; escapes are decoded to valid UTF-8 by the readers above,
+		// so anything invalid here is a raw byte sequence in the input.
+		if !utf8.ValidString(str) {
+			return "", &SyntaxError{"text is not valid UTF-8", t.pos}
+		}
 	}
 
 	t.unfinished = false
@@ -1161,7 +1171,7 @@ func (t *tokenizer) ReadLongClob() ([]byte, error) {
 	return val, nil
 }
 
-// IsTripleQuote returns true if this is a triple-quote sequence (''').
+// IsTripleQuote returns true if this is a triple-quote sequence (”').
 func (t *tokenizer) IsTripleQuote() (bool, error) {
 	// We've just read a '\'', check if the next two are too.
 	cs, err := t.peekN(2)
